@@ -14,7 +14,8 @@ CLOSE = dict(add='++}', dele='--}', hi='==}', com='<<}', sub='~~}')
 MARKERS = list(OPEN.values()) + list(CLOSE.values()) + ['~>']
 
 ATOMS = ['alpha', 'beta ', ' gamma', 'x', ' ', '  ', '\n', '\n\n', 'line one\nline two', '\\{', '\\}', '{', '}', '*em*', '# not head', 'a+b', 'c-d', 'e=f', '1 < 2', '3 > 2',
-         'tilde~x', 'é', '中', '- item', '> q', '`code`', '[l](u)', '&amp;', 'end.']
+         'tilde~x', 'é', '中', '- item', '> q', '`code`', '[l](u)', '&amp;', 'end.',
+         'bs\\\\']           # an escaped backslash: what follows it (a marker, a brace) is not escaped
 
 
 class Node:
